@@ -26,7 +26,8 @@ RULE = ("related ordered pairs (top, bottom): the bottom is derived field by fie
         "operators, flag relation, answer, truth) with a True answer or a contained pair"
         " Round 4: the meaning of an entry is read from the line it renders (independent reader) wherever the text carries it; histories edit option/port/address through the sub-object and ask again."
         " Round 5: pairs in which the bottom is a rebuild of the top with its uuid that then got its own text."
-        " Rounds 6-7: mixed kinds (standard entry on one side); sibling three-port neq lists; log keyword before flags.")
+        " Rounds 6-7: mixed kinds (standard entry on one side); sibling three-port neq lists; log keyword before flags."
+        " Round 9: operand 0 in port expressions; the default asked again after skip calls.")
 ASSUMPTIONS = ["flag lists are Cisco's legacy any-of lists (pinned by tests/test__ace.py)",
                "a group without attached members denotes no address; shadow answers with it must be False"]
 
